@@ -107,6 +107,10 @@ type Sim struct {
 	Log []string
 	// Watch lists the stores snapshotted around every delivered tx.
 	Watch []string
+	// Focus, when it names two nodes, makes RandSendSpec use that (source, destination) pair FocusPct times out of 100:
+	// many packets of ONE path in flight at a time (sequence numbers 1, 10..19, 100.. share key prefixes).
+	Focus    []*core.Node
+	FocusPct int
 }
 
 // Config configures NewSim.
